@@ -135,6 +135,7 @@ pub fn gen_scenario(run_seed: u64, tier: Tier) -> E3Scenario {
         cycles: true,
         plain: rw.chance(1, 3),
         closed_imports: false,
+        cover_fragments: false,
         dirs: vec!["/p/src".into(), "/p/src/a".into(), "/p/src/a/b".into(), "/p/lib".into(), "/q".into()],
     };
     let ops = wgen::gen_ops(&mut rw, &schema, &o);
